@@ -6,3 +6,6 @@
 //! - Herramienta unificada LIDER-CALENER (HULC)
 
 pub(crate) mod from_ctehexml;
+
+#[cfg(any(kani, verif_hooks))]
+pub use from_ctehexml::verif_hooks;
